@@ -39,6 +39,34 @@ Eval vm_compute in (match find_diff_dd implb dfa_%(a)s dfa_%(b)s with Some w => 
     open(p, 'w').write(src)
     return p
 
+def conv_problems(dfas, b, io):
+    """judges the output of the harness op `conv` (every conversion between the eight URI/IRI types) for the text b: a conversion must
+    succeed exactly when the target grammar (the translated validator) accepts the text, and must keep the text"""
+    def acc(t, b):
+        tk = c01.tokens_of(dfas[t], b)
+        return tk is not None and c01.dfa_run(dfas[t], tk)
+    pr = []
+    V = {t: acc(t, b) for t in ('uri', 'uri_reference', 'iri', 'iri_reference')}
+    toks = dict(x.split(':', 1) for x in io.split(' ') if ':' in x)
+    if 'PANIC' in io: pr.append('a conversion panicked')
+    for name, res in toks.items():
+        if res.startswith('CHANGED') or res == '!' or res == 'err!':
+            pr.append('%s changed the text / did not hand back the original' % name)
+        target = None
+        if 'as_uri_ref' in name or '->&uriref' in name or 'into_uri_ref' in name or '->urirefbuf' in name: target = 'uri_reference'
+        elif 'as_iri_ref' in name or '->&iriref' in name or 'into_iri_ref' in name or '->irirefbuf' in name: target = 'iri_reference'
+        elif 'as_uri' in name or '->&uri' in name or 'into_uri' in name or '->uribuf' in name: target = 'uri'
+        elif 'as_iri' in name or '->&iri' in name or 'into_iri' in name or '->iribuf' in name: target = 'iri'
+        if target and res != '-':
+            ok = res in ('ok', '=')
+            if ok != V[target]:
+                pr.append('%s %s although the %s grammar %s the text' % (name, 'succeeded' if ok else 'failed', target, 'accepts' if V[target] else 'rejects'))
+    for t, pre in (('uri', 'uri'), ('uri_reference', 'uriref'), ('iri', 'iri'), ('iri_reference', 'iriref')):
+        if V[t] and (pre + ':-') in io.split(' '): pr.append('%s::new rejected a text its grammar accepts' % pre)
+    return pr, V
+
+DELIM_RICH = ['?t=12:30', '#a:b', 'x?k:v', 'x#k:v', '?a:b#c:d', 'p/q?r:s', '?:', '#:', 'a?b/c:d', '//h?x:y', '/p#x:y', '?x:y/z', 's:?a:b', 's:#a:b', 'a:b?c:d']
+
 def main():
     R = Result('C13', 'proof')
     rnd = random.Random(R.seed)
@@ -94,31 +122,14 @@ def main():
     for t in ('uri_reference', 'iri_reference'):
         for b in c01.sample_strings(dfas[t], random.Random(rnd.random()), 15000 if thorough else 600):
             lines.append('conv\t%s' % hexs(b)); meta.append(b)
+    # references whose query / fragment contain the delimiters that are legal there (':' '/' '?' '@'): the scheme test of a
+    # conversion must not look past the path
+    for x in DELIM_RICH:
+        lines.append('conv\t%s' % hexs(x)); meta.append(x.encode())
     impl = run_lines(harness, lines)
     nviol = 0; classes = set()
-    def acc(t, b):
-        tk = c01.tokens_of(dfas[t], b)
-        return tk is not None and c01.dfa_run(dfas[t], tk)
     for b, line, io in zip(meta, lines, impl):
-        pr = []
-        V = {t: acc(t, b) for t in ('uri', 'uri_reference', 'iri', 'iri_reference')}
-        toks = dict(x.split(':', 1) for x in io.split(' ') if ':' in x)
-        if 'PANIC' in io: pr.append('a conversion panicked')
-        for name, res in toks.items():
-            src = name.split('.')[0].replace('buf', '') if '.' in name else None
-            if res.startswith('CHANGED') or res == '!' or res == 'err!':
-                pr.append('%s changed the text / did not hand back the original' % name)
-            target = None
-            if 'as_uri_ref' in name or '->&uriref' in name or 'into_uri_ref' in name or '->urirefbuf' in name: target = 'uri_reference'
-            elif 'as_iri_ref' in name or '->&iriref' in name or 'into_iri_ref' in name or '->irirefbuf' in name: target = 'iri_reference'
-            elif 'as_uri' in name or '->&uri' in name or 'into_uri' in name or '->uribuf' in name: target = 'uri'
-            elif 'as_iri' in name or '->&iri' in name or 'into_iri' in name or '->iribuf' in name: target = 'iri'
-            if target and res != '-':
-                ok = res in ('ok', '=')
-                if ok != V[target]:
-                    pr.append('%s %s although the %s grammar %s the text' % (name, 'succeeded' if ok else 'failed', target, 'accepts' if V[target] else 'rejects'))
-        for t, pre in (('uri', 'uri'), ('uri_reference', 'uriref'), ('iri', 'iri'), ('iri_reference', 'iriref')):
-            if V[t] and (pre + ':-') in io.split(' '): pr.append('%s::new rejected a text its grammar accepts' % pre)
+        pr, V = conv_problems(dfas, b, io)
         classes.add((tuple(V.values()), any(c > 127 for c in b), spec.parse(b)[0] is None))
         if pr:
             nviol += 1
@@ -136,6 +147,10 @@ def main():
         q = cmpgen.equal_variant(gu, p) if gu.r.random() < 0.4 else (cmpgen.mutate_one(gu, p) or gu.parts())
         both('ref\turiref\t' + hexs(b))
         both('eq\turiref\t' + hexs(b) + '\t' + hexs(Gen.compose(q)))
+        if gu.r.random() < 0.25:     # two components differing in opposite directions: the field order of the comparison must agree
+            for pp, qq in cmpgen.two_component_pairs(gu, 1):
+                both('eq\turiref\t' + hexs(Gen.compose(pp)) + '\t' + hexs(Gen.compose(qq)))
+                both('eq\turi\t' + hexs(Gen.compose(pp)) + '\t' + hexs(Gen.compose(qq)))
         # unrelated paths of different lengths under the same scheme/authority: the orderings must agree too
         p1 = '/' + '/'.join(gu.pick(SEG) for _ in range(gu.pick([1, 2, 3, 4]))); p2 = '/' + '/'.join(gu.pick(SEG) for _ in range(gu.pick([1, 2, 3, 4])))
         both('eq\turiref\t' + hexs('s://h' + p1) + '\t' + hexs('s://h' + p2))
